@@ -1,7 +1,7 @@
 """C10 — editor buffers win over the background scan."""
 import os, re
 from .. import core, conc
-from .common import Run
+from .common import Run, parse_list
 from .c09 import NAMES, FIX
 
 PROP = "C10"
@@ -248,6 +248,52 @@ def news_of_text(t):
     return out
 
 
+def plugin_part(r, tier):
+    """The notification precedes the scan, and the file is one the scan reaches only through the imports of an
+    editable-install plugin and has to re-analyse as plugin code: afterwards the index must hold the editor's
+    version of it, once — not the older text on disk.  In process (plsv), compared with the model."""
+    from . import c14
+    v = r.verdict
+    cases = core.Cases()
+    want, n, tries = [], (10 if tier == "quick" else 120), 0
+    while len(want) < n and tries < n * 40:
+        tries += 1
+        files, expect, vname = c14.gen_venv(r.rng)
+        found = {fx for (fx, k) in expect if k == "plugin"}
+        cands = [p for p in sorted(files) if p.startswith("plugins_src") and "/level" in p
+                 and any(("def %s(" % fx) in files[p] for fx in found)]
+        if not cands:
+            continue
+        p = r.rng.choice(cands)
+        disk_fx = [fx for fx in found if ("def %s(" % fx) in files[p]][0]
+        editor = files[p].replace("def %s(" % disk_fx, "def editor_only_fx(")
+        files["conftest.py"] = c14.FX.format("project_fx")
+        files["test_ws.py"] = "def test_w(editor_only_fx, %s):\n    pass\n" % disk_fx
+        name = "pl%d" % len(want)
+        cases.case(name, {"kind": "plugin-reanalysis", "file": p})
+        for k, (q, t) in enumerate(sorted(files.items())):
+            cases.text("f%d" % k, t, with_ast=q.endswith(".py"))
+            cases.raw("disk %s f%d" % (q, k))
+        cases.text("ed", editor)
+        cases.op("analyze", p, "ed")
+        cases.op("scan")
+        kd = (name, cases.q("defs", p))
+        cases.q("dump")
+        cases.q("resolve", "test_ws.py", "editor_only_fx")
+        cases.q("resolve", "test_ws.py", disk_fx)
+        want.append((name, p, disk_fx, kd))
+    ia, ma, sp = r.run_cases(cases, tag="plugin")
+    bad = r.correspond(cases, ia, ma)
+    for (name, p, disk_fx, kd) in want:
+        names = [rec.split("|")[0] for rec in parse_list(ia.get(kd, "[]"))]
+        if names.count("editor_only_fx") == 1 and disk_fx not in names:
+            continue
+        msg = (f"case {name}: {p} was opened with the editor's text (fixture editor_only_fx instead of {disk_fx}) before the scan, which "
+               f"reaches it through the plugin's imports; afterwards the index holds {names} for it — the editor's content exactly once is {['editor_only_fx']}")
+        v.violation(f"{name}-plugin-reanalysis", msg, f"# {msg}\n" + cases.replay_text(name), weak=any(k[0] == name for k in bad))
+    r.stats["plugin_reanalysis_cases"] = len(want)
+
+
 def run(tier, seed):
     r = Run(PROP, MODULE, THEOREMS, tier, seed, need_server=True)
     if not r.prepare():
@@ -381,6 +427,7 @@ def run(tier, seed):
         if got != want:
             r.corr_bad.append((k, ["conc10", where], want, got))
     stdio_race(r, 6 if tier == "quick" else 60)
+    plugin_part(r, tier)
     r.evaluations = nruns
     r.stats["runs_by_scenario_kind"] = kinds
     r.stats["runs_ending_with_exactly_the_editor_content"] = nsame
